@@ -17,8 +17,7 @@ from vf.par_common import combos, run_case, schedules
 RULE = (
     "Fault enumeration in-process (synchronous process context, real worker loop / monitor loop / merging code): for 3 items every marking of the "
     "items as {ok, raise-before-touching, raise-after-updating} (3^n) x every schedule over 1..3 workers; for 4 and 5 items every marking x "
-    "seed-sampled schedules; and every (schedule, item) at which the worker processing that item dies (uncaught BaseException -> non-zero exit "
-    "status), alone and combined with raising items; all with rotating cms/hh/hll argument combinations. Interleaved runs: the same faults with 7-70 items over 1-4 workers (callback exceptions incl. the OSError family and a class that cannot be unpickled) under a cooperative-thread context (bounded blocking queue, concurrent filler, seeded scheduler; a deadlock of all processes is a hang). Real spawned runs: a callback raising on "
+    "seed-sampled schedules; and every (schedule, item) at which the worker processing that item dies (uncaught BaseException -> exit status 1, or killed by signal 9 from outside -> exit status -9), alone and combined with raising items; all with rotating cms/hh/hll argument combinations. Interleaved runs: the same faults with 7-70 items over 1-4 workers (callback exceptions incl. the OSError family and a class that cannot be unpickled) under a cooperative-thread context (bounded blocking queue, concurrent filler, seeded scheduler; a deadlock of all processes is a hang). Real spawned runs: a callback raising on "
     "one item and a worker calling os._exit(3) (quick: the os._exit run; thorough: both). Oracle: raising callbacks -> parallel_add returns, every "
     "item is handed to the callback once, HyperLogLog registers equal the sequential sketch over ok + raise-after items (nothing else), n_added of cms/hh equals "
     "their multiplicity, n_records equals the sum of the returns of ok items only, C01/C03/C04/C06 bounds hold w.r.t. that stream; dead worker -> "
@@ -49,7 +48,7 @@ def nontrivial(case):
         modes = [case["items"][i]["mode"] for i in idxs]
         if any(m != "ok" for m in modes) and any(m == "ok" for m in modes):
             return True
-    return any(it["mode"] in ("die", "exit") for it in case["items"])
+    return any(it["mode"] in ("die", "exit", "kill9") for it in case["items"])
 
 
 def _mark_task(arg):
@@ -97,7 +96,7 @@ def _death_task(arg):
                 if t % nshards != shard:
                     continue
                 marking = list(others)
-                marking[victim] = "die"
+                marking[victim] = "die" if t % 3 else "kill9"  # an uncaught exception (exit status 1) or a kill -9 from outside (-9)
                 case = {"items": marked_items(n, marking), "n_workers": k, "schedule": {str(w): v for w, v in sched.items()}, "combo": cbs[t % len(cbs)], "items_as": "list", "cb": "plain"}
                 try:
                     obs = run_case(case)
@@ -132,7 +131,7 @@ def _coop_task(arg):
         if death:
             # early (the filler is still blocked), anywhere, or on the very last item (the other workers have already
             # taken their pills and exited cleanly when this one dies)
-            items[rnd.choice([rnd.randrange(0, min(n, 4)), rnd.randrange(n), n - 1, n - 1])]["mode"] = "die"
+            items[rnd.choice([rnd.randrange(0, min(n, 4)), rnd.randrange(n), n - 1, n - 1])]["mode"] = "die" if t % 4 else "kill9"
         case = {"items": items, "n_workers": k, "schedule": {}, "combo": cbs[(t * 7 + 3) % len(cbs)], "items_as": "list", "cb": "plain", "ctx": "coop",
                 "sched_seed": rnd.getrandbits(32), "policy": rnd.choice(["random", "parent_last", "parent_first", "filler_slow", "low_worker_first"])}
         try:
